@@ -24,8 +24,8 @@ class Case:
 class GuardRun:
     """one corpus through implementation and model"""
 
-    def __init__(self, wsname, decls, features=runner.FEATURES_ALL):
-        self.ws = runner.Workspace(wsname, features)
+    def __init__(self, wsname, decls, features=runner.FEATURES_ALL, nostd=False):
+        self.ws = runner.Workspace(wsname, features, nostd=nostd)
         self.decls = decls
         self.features = features
         self.cases = []
@@ -166,3 +166,49 @@ class GuardRun:
                 if out.get(c.cid) != c.model:
                     diffs.append((c.cid, out.get(c.cid), c.model))
         return n_cmp, diffs
+
+
+def build_inv():
+    """the syn-based inventory extractor (harness/inv), built once into build/inv_target"""
+    tdir = os.path.join(BUILD, "inv_target")
+    exe = os.path.join(tdir, "release", "inv")
+    src = os.path.join(VERIF, "harness", "inv")
+    stamp = os.path.join(tdir, "stamp")
+    key = sha(open(os.path.join(src, "src", "main.rs")).read() + open(os.path.join(src, "Cargo.toml")).read())
+    with flock("inv"):
+        if os.path.exists(exe) and os.path.exists(stamp) and open(stamp).read() == key:
+            return exe
+        p = run(["cargo", "build", "--release", "--offline", "--target-dir", tdir], cwd=src, timeout=900)
+        if p.returncode != 0:
+            raise RuntimeError("inv build failed: " + p.stderr[-2000:])
+        open(stamp, "w").write(key)
+    return exe
+
+
+def expand_inventory(ws):
+    """macro expansions of every shard (-Zunpretty=expanded) through the extractor:
+    returns module id -> list of records (split on '|', without the module field)"""
+    from concurrent.futures import ThreadPoolExecutor
+    exe = build_inv()
+    outdir = os.path.join(ws.dir, "expanded")
+    os.makedirs(outdir, exist_ok=True)
+
+    def one(k):
+        cname = "%s_s%d" % (ws.name, k)
+        with flock("cargo_" + ws.name):
+            p = run(["cargo", "rustc", "--offline", "-p", cname, "--", "-Zunpretty=expanded"], cwd=ws.dir, timeout=900)
+        if p.returncode != 0:
+            raise RuntimeError("expansion of %s failed: %s" % (cname, p.stderr[-1500:]))
+        path = os.path.join(outdir, cname + ".rs")
+        open(path, "w").write(p.stdout)
+        q = run([exe, path], timeout=300)
+        if q.returncode != 0:
+            raise RuntimeError("inv failed on %s: %s" % (path, q.stderr[-1500:]))
+        return q.stdout
+    recs = {}
+    with ThreadPoolExecutor(max_workers=4) as ex:
+        for text in ex.map(one, range(ws.nshards)):
+            for line in text.splitlines():
+                parts = line.split("|")
+                recs.setdefault(parts[0], []).append(parts[1:])
+    return recs
